@@ -767,6 +767,12 @@ def mk_call(fn, args=(), kwargs=()):
         fn = 'floor'
     if fn in EVEN and len(args) == 1 and leading_sign(args[0]) < 0:
         args = [-args[0]]
+    if fn in ('min', 'max') and len(args) == 1 and not kwargs:
+        la = args[0].single_atom()
+        if la is not None and la.kind in ('list', 'tuple') and la.args:
+            args = list(la.args)            # min([a, b]) == min(a, b)
+            if len(args) == 1:
+                return args[0]
     if fn in COMMUTATIVE and not kwargs:
         cs = [a.const() for a in args]
         if all(c is not None for c in cs) and cs:
@@ -1074,7 +1080,16 @@ def _definitely_distinct(i, j):
 
 
 def mk_store(base, idx, val):
-    return Term.of(Atom('store', lift(base), lift(idx), lift(val)))
+    base, idx, val = lift(base), lift(idx), lift(val)
+    ba = base.single_atom()
+    if ba is not None and ba.kind == 'list':
+        # an item store into a literal list at a constant position is the literal with that item replaced
+        c = idx.const()
+        if c is not None and c.denominator == 1 and -len(ba.args) <= c < len(ba.args):
+            items = list(ba.args)
+            items[int(c)] = val
+            return mk_tuple(items, 'list')
+    return Term.of(Atom('store', base, idx, val))
 
 
 def mk_attr(base, name):
